@@ -193,6 +193,18 @@ theorem maximize_no_redistribution :
     (resolveTracks [(.px 0, .px 50), (.px 5, .px 5)] (some 100) [] 0 true 0 false).toOption.map
       (List.map (·.base)) = some [95/2, 5] := by decide +kernel
 
+/-- id=grid-named-line-nth-ignored.  `grid-column-start: 2 foo` on lines `[foo] [foo] [foo] []`:
+the second line called `foo` is line 1 (0-based); `_get_line` stops at the first one and answers 0. -/
+theorem named_line_nth_ignored :
+    (getLine false (some 2) (some "foo") [["foo"], ["foo"], ["foo"], []] "start").toOption.map (·.coord) =
+      some (some 0) := by decide +kernel
+
+/-- id=grid-justify-self-outer-width.  `justify-self: start; width: 20px; padding: 0 5px` in a 100px
+area: the content width is set to the *outer* max-content width (30), the border box is 40px wide (30 expected). -/
+theorem justify_self_outer_width :
+    grects (layout gridC [{ gitem with sWidth := some 20, pl := 5, pr := 5, justifySelf := .other }]) =
+      some [(0, 0, 40, 5)] := by decide +kernel
+
 end Grid
 
 end Wp.Witness.C12
